@@ -20,7 +20,7 @@ for d in /verif/seeded/C*/*/; do
   t0=$(date +%s)
   log=$(./check "$id" 2>&1); rc=$?
   t1=$(date +%s)
-  git -C /repo checkout -- . ; git -C /repo reset -q
+  git -C /repo reset -q --hard HEAD
   v=$(echo "$log" | grep -m1 "^VIOLATION" )
   if [ -n "$v" ]; then
     kind="failing input"; echo "$v" | grep -q "no-failing-input-found" && kind="no-failing-input-found"
